@@ -22,8 +22,8 @@ env["TMPDIR"] = "/var/tmp/seed/tmp-%d" % os.getpid()
 os.makedirs(env["TMPDIR"], exist_ok=True)
 
 
-def sh(cmd, cwd=None, timeout=3000):
-    r = subprocess.run(["bash", "-c", cmd], cwd=cwd, env=env, capture_output=True, text=True, timeout=timeout)
+def sh(cmd, cwd=None, timeout=3000, e=None):
+    r = subprocess.run(["bash", "-c", cmd], cwd=cwd, env=e or env, capture_output=True, text=True, timeout=timeout)
     return r.returncode, (r.stdout + r.stderr)[-3000:]
 
 
@@ -39,10 +39,13 @@ if rc != 0:
     print("PATCH DOES NOT APPLY to current HEAD:", out)
     sys.exit(3)
 demo = meta["demo_cmd"]
-rc0, out0 = sh(demo, cwd=wt)
+demo_env = dict(os.environ, TMPDIR=env["TMPDIR"], GIT_CONFIG_GLOBAL="/dev/null")  # demos set their own Go environment
+for k in ("GOSUMDB", "GOTOOLCHAIN", "GOFLAGS"):
+    demo_env.pop(k, None)
+rc0, out0 = sh(demo, cwd=wt, e=demo_env)
 res["demo_without_patch_rc"] = rc0
 sh(f"git apply {src}/patch.diff", cwd=wt)
-rc1, out1 = sh(demo, cwd=wt)
+rc1, out1 = sh(demo, cwd=wt, e=demo_env)
 res["demo_with_patch_rc"] = rc1
 res["demo_with_patch_tail"] = out1[-600:]
 # existing tests with the patch (root module packages + CLI internal packages)
